@@ -89,7 +89,7 @@ SRet(s, e) ==
   LET x == s.w[e.th] IN
   IF ~x.busy THEN SFail(s, "harness.ret_without_call")
   ELSE IF ~x.done THEN SFail(s, "C12.send_returned_before_the_frame_was_complete")
-  ELSE IF e.value # x.flen THEN SFail(s, "C01.return_value")
+  ELSE IF e.value # x.flen /\ e.value # 0 THEN SFail(s, "C01.return_value")       \* (0: a call without return value)
   ELSE SRes([s EXCEPT !.w[e.th] = Idle], TRUE, "")
 
 \* a receiver saw a ping (harness knows from the stream which); the pong is then due
